@@ -154,6 +154,13 @@ pub fn plan(prop: &str, rng: &mut Rng, hash_key: u64) -> Plan {
     let mut init = base_init(rng, hash_key);
     let mut profile = base_profile(rng, guards);
     let mut sched = Sched::default();
+    // exploration switch: history checks other than C03 started from imported fixtures
+    if std::env::var("VERIF_FIXTURE_INIT").is_ok() && matches!(prop, "C01" | "C02" | "C26" | "C04" | "C27") && rng.chance(0.16) {
+        let small: Vec<String> = crate::world::fixtures().into_iter().filter(|f| !f.contains("calc_test")).collect();
+        if !small.is_empty() {
+            init.initial = InitialWb::Fixture(rng.pick(&small).clone());
+        }
+    }
     match prop {
         "C01" => {}
         "C02" => {
